@@ -4,6 +4,14 @@ import subprocess
 from harness import common, hbits
 
 
+def oracle_ints(cs, h, lines):
+    """every integer the tracer writes, read back bit by bit with the metadata layout: user fields (C01's oracle), the
+    timestamps the tracer samples (C05's: written through the same macros, with the clock value as the macro
+    argument) and the packet header / context fields (C04's)"""
+    from checks import c01, c04, c05
+    return c01.oracle(cs, h, lines) + c05.oracle_values(cs, h, lines) + c04.oracle(cs, h, lines)
+
+
 def run(c):
     ob = c.proof_obligations()
     c.assumptions += [
@@ -82,10 +90,10 @@ def run(c):
         nb, kb = (8, 30) if c.tier == 'quick' else (40, 80)
         # tracing stays enabled in these histories (what a disabled tracer ignores is finding F9, registered under the
         # properties it belongs to, not under C08)
-        cases_b, dis_b, stats_b = rt.run_rt(c, c01.oracle, nb, kb, gen_hist=rt.flushing(hrt.gen_history),
+        cases_b, dis_b, stats_b = rt.run_rt(c, oracle_ints, nb, kb, gen_hist=rt.flushing(hrt.gen_history),
                                             hist_kwargs={'toggles': False},
                                             label='H-runtime (bit-packed integers)', profile='rt-bits', seed_base=800)
-        rt.decide(c, ob, dis_b, oracle=c01.oracle, hist_kwargs={'toggles': False})
+        rt.decide(c, ob, dis_b, oracle=oracle_ints, hist_kwargs={'toggles': False})
     if c.tier == 'thorough' and ob['ok']:
         ok, log = c.leanchecker(['BVM.Props.C08'])
         if not ok:
